@@ -27,8 +27,8 @@ def mutate(rng, b):
 
 class Prop(PropBase):
     pid = 'C08'
-    kernels = []
-    vo_targets = ['Props/Properties_C08.vo', 'Proofs/Layout.vo']
+    kernels = ['Trigon']
+    vo_targets = ['Props/Properties_C08.vo', 'Proofs/Layout.vo', 'Proofs/Eq_Trigon.vo']
     prop_files = ['Props/Properties_C08.v']
     rule = ('all 17 types, ASan+UBSan build: structured mutations of valid MSOP/DIFOP packets (bit flips, truncation to 0/1/2/3/8/41..len-1, extension, 0xFF/0x00 runs, random bodies '
             'under both dispatch prefixes), datagram lengths around every accepted length and the packet-buffer size (1546/65536), with and without a packet callback, user/tail layers, '
@@ -40,7 +40,47 @@ class Prop(PropBase):
     projection = {'kinds': {'get', 'cloud', 'p', 'pkt', 'open', 'temp', 'crash', 'nodrv', 'k'}, 'ignore_buf': True}   # reported codes are C19's subject
 
     def kernel_class(self, k):
-        return 'direct'
+        return k.split()[1]
+
+    def judge_kernels(self, bname, inp, impl_path, model_path, violations, broken, stats):
+        if bname != 'kern_trig':
+            return super().judge_kernels(bname, inp, impl_path, model_path, violations, broken, stats)
+        # Trigon::sin / cos on arbitrary int32 angles: (1) the index the translated code forms (gen) must lie inside the table
+        # the constructor allocates (tab: offset and length recorded by the probe) - a failing angle is the replay;
+        # (2) the value the compiled code returns must be the table entry of the clamped index (independent oracle: binary32
+        # of sin / cos of index x 0.01 deg, one ulp), and the call must not fault
+        import math, struct
+        il = [l.rstrip('\n') for l in open(impl_path) if l.startswith('k ')]
+        ml = [l.rstrip('\n') for l in open(model_path) if l.startswith('k ')]
+        kl = [l.rstrip('\n') for l in open(inp) if l.startswith('K ')]
+        if not (len(il) == len(ml) == len(kl)):
+            broken.append(f'kernel batch {bname}: line counts differ impl={len(il)} model={len(ml)} input={len(kl)}'); return
+        f32 = lambda v: struct.unpack('<I', struct.pack('<f', v))[0]
+        def ulps(a, b):
+            key = lambda u: u ^ 0x80000000 if u < 0x80000000 else 0xFFFFFFFF - u + 0x80000000
+            return abs(key(a) - key(b))
+        cls = set()
+        for k, a, m in zip(kl, il, ml):
+            stats['evaluations'] += 1
+            ang = int(k.split()[2])
+            parts = [x.split() for x in m.split(' | ')]
+            idx = int(parts[0][2]); gs, gc = int(parts[1][1]), int(parts[1][2]); slo, sn, clo, cn = map(int, parts[2][1:5])
+            c = 'in-table' if -9000 <= ang < 45000 else ('below' if ang < -9000 else 'above')
+            cls.add(c); stats['classes']['trig:' + c] = stats['classes'].get('trig:' + c, 0) + 1
+            if len(stats['samples']) < 2:
+                stats['samples'].append({'kernel_input': k, 'impl': a, 'model': m})
+            if not (slo <= gs < slo + sn) or not (clo <= gc < clo + cn):
+                violations.append(('kernel:trig', f'{k}: Trigon::sin/cos (as translated from trigon.hpp) index their tables at {gs} / {gc}, outside the allocated extent [{slo}, {slo + sn}) / [{clo}, {clo + cn}): read outside the driver\'s tables', k))
+                continue
+            if gs != idx or gc != idx:
+                broken.append(f'translated Trigon kernel disagrees with the model clamp on `{k}`: gen {gs}/{gc}, model {idx}')
+            t = a.split()
+            if t[2] == 'crash':
+                violations.append(('kernel:trig', f'{k}: Trigon::sin/cos terminated the process (signal/exit {t[3]})', k)); continue
+            ws, wc = f32(math.sin(math.radians(idx * 0.01))), f32(math.cos(math.radians(idx * 0.01)))
+            if ulps(int(t[2]), ws) > 1 or ulps(int(t[3]), wc) > 1:
+                violations.append(('kernel:trig', f'{k}: compiled Trigon returns bits {t[2]} / {t[3]}, the table entry of the clamped index {idx} is {ws} / {wc}: the value does not come from the table entry the clamp selects', k))
+        stats['distinct_nontrivial'] += len(cls)
 
     def kernel_verdict(self, k, impl, model, spec):
         return None if impl == model else 'decoder-direct run did not complete'
@@ -93,8 +133,24 @@ class Prop(PropBase):
                 scn_all.append(s.text())
                 if not l.jumbo or r == 0:
                     ks.append(f'K direct {l.code} {rng.randrange(2)} ' + ','.join(p.hex() for p in direct))
+        # M1 / M1 jumbo: pitch and yaw words over the whole 16-bit range with ranges inside the window (table indices from raw - 32768)
+        for t in ('RSM1', 'RSM1_JUMBO'):
+            l = self.L[t]
+            edge = [0, 1, 23767, 23768, 23769, 32767, 32768, 65535, 12768, 3232, 41768]
+            s = scen.Scn(f'c08_{t}_angles')
+            s.drv(0, l, pktgen.Cfg(wait=0, dense=0))
+            for k in range(2 if t == 'RSM1' else 1):
+                blocks = [(rng.randrange(256), [{'dist': rng.choice([400, 2000, 30000]), 'int': rng.randrange(256),
+                                                 'pitch': rng.choice(edge + [rng.randrange(65536)]), 'yaw': rng.choice(edge + [rng.randrange(65536)])}
+                                                for _ in range(l.nchan)]) for _ in range(l.nblk)]
+                s.pkt(0, l.mems_sub(k + 1, blocks) if not l.jumbo else l.jumbo_msop([l.mems_sub(j + 1, blocks, sub_len=l.T['sizeof_sub']) for j in range(l.T['n_sub'])]))
+            scn_all.append(s.text())
         out.append(('drv', '\n'.join(scn_all) + '\n'))
         out.append(('kern_direct', '\n'.join(ks) + '\n'))
+        angs = sorted(set([-2147483648, -2147483647, 2147483647, -65536, -45001, -45000, -36001, -36000, -35999, -32768, -27001, -27000, -18000, -9002, -9001, -9000, -8999,
+                           -1, 0, 1, 8999, 9000, 35999, 36000, 36001, 44998, 44999, 45000, 45001, 53999, 54000, 65535, 72000, 81000, 90000]
+                          + [rng.randrange(-100000, 100000) for _ in range(40 if tier == 'quick' else 400)]))
+        out.append(('kern_trig', '\n'.join(f'K trig {a}' for a in angs) + '\n'))
         # metamorphic: a 0/1-byte packet after two different predecessors
         meta = []
         for t in ['RS32', 'RSM1', 'RSP128']:
